@@ -238,9 +238,9 @@ entry("pairwise", lambda c: ops.pairwise(), "agnostic")
 entry("start_with", lambda c: ops.start_with(7, 8), "agnostic")
 entry("default_if_empty", lambda c: ops.default_if_empty(9), "agnostic")
 entry("ignore_elements", lambda c: ops.ignore_elements(), "agnostic")
-entry("take_last", lambda c: ops.take_last(c.p), "agnostic")
-entry("skip_last", lambda c: ops.skip_last(c.p), "agnostic")
-entry("take_last_buffer", lambda c: ops.take_last_buffer(c.p), "agnostic")
+entry("take_last", lambda c: ops.take_last(c.cp), "agnostic")  # concrete count: buffers may be C containers (deque(maxlen=))
+entry("skip_last", lambda c: ops.skip_last(c.cp), "agnostic")
+entry("take_last_buffer", lambda c: ops.take_last_buffer(c.cp), "agnostic")
 entry("element_at", lambda c: ops.element_at(c.p), "agnostic")
 entry("element_at_or_default", lambda c: ops.element_at_or_default(c.p, 9), "agnostic")
 entry("find", lambda c: ops.find(c.find_pred()), "cb", "inspect")
@@ -253,6 +253,7 @@ entry("materialize", lambda c: ops.materialize(), "agnostic")
 entry("dematerialize", lambda c: ops.dematerialize(), "inspect", elem="note")
 entry("as_observable", lambda c: ops.as_observable(), "agnostic")
 entry("slice", lambda c: ops.slice(c.p - 1, None, None), "agnostic")
+entry("slice_step", lambda c: ops.slice(None, None, c.cm), "agnostic")
 entry("timestamp", lambda c: ops.timestamp(), "agnostic", "time")
 entry("time_interval", lambda c: ops.time_interval(), "agnostic", "time")
 # aggregates
